@@ -5,6 +5,7 @@ package tls
 import (
 	"context"
 	"errors"
+	"time"
 
 	"github.com/hashicorp/nodeenrollment"
 	"github.com/hashicorp/nodeenrollment/types"
@@ -148,3 +149,35 @@ func VerifC05NodeIdPath0() { verifC05(0, true) }
 func VerifC05NodeIdPath1() { verifC05(1, true) }
 func VerifC05NodeIdPath2() { verifC05(2, true) }
 func VerifC05NodeIdPath3() { verifC05(3, true) }
+
+// C13, server-certificate generation over a faulty storage: a failed call hands out neither certificates nor client
+// state; without a fault a correctly signed request of a registered node succeeds.
+func VerifC13GenerateFaults() {
+	ctx := context.Background()
+	inner := &vfs.Storage{}
+	t0 := vf.Now()
+	vf.ShortScenario(t0, time.Second)
+	vfs.StoreRoots(ctx, inner, t0)
+	id, _ := nodeenrollment.KeyIdFromPkix(vf.Pkix(2))
+	if err := (&types.NodeInformation{Id: id, CertificatePublicKeyPkix: vf.Pkix(2)}).Store(ctx, inner); err != nil {
+		panic(err)
+	}
+	nonce := []byte("a-fresh-connection-nonce-32-byte")
+	const maxOps = 4
+	f := &vfs.Faulty{Inner: inner, FailAt: vf.Int("fail-at", -1, maxOps), ErrKind: vf.Int("error-kind", 0, 2)}
+	snap := inner.Snapshot()
+	resp, err := GenerateServerCertificates(ctx, f, &types.GenerateServerCertificatesRequest{CertificatePublicKeyPkix: vf.Pkix(2), Nonce: nonce, NonceSignature: vf.SigBy(2, nonce)})
+	vf.Assert("op-count-within-bound", f.N <= maxOps)
+	if f.Hit {
+		vf.Reach("fault-hit")
+	}
+	if err == nil {
+		vf.Reach("generated")
+		vf.Assert("one-certificate-per-root", len(resp.CertificateBundles) == 2)
+	} else {
+		vf.Reach("failed")
+		vf.Assert("failure-hands-out-nothing", resp == nil)
+	}
+	vf.Assert("no-fault-means-success", vf.Implies(!f.Hit, err == nil))
+	vf.Assert("generation-changes-nothing-in-storage", inner.SameAs(snap))
+}
